@@ -84,6 +84,8 @@ def evaluate(run_seed, ops=None, pristine="budget", want_ops=False, extra_opts=N
         npr += 1
         eq = getattr(_ctx["mod"], "pristine_equal", None)
         same = eq(got, ob["expect"]) if eq else got == ob["expect"]
+        if ob.get("both_ok_only") and (str(_dg(got)).startswith("exc") or str(_dg(ob["expect"])).startswith("exc")):
+            same = True
         if not same:
             res["violations"].append({"cls": ob.get("cls", "pristine_differs"), "site": ob["site"],
                                       "step": ob["step"],
